@@ -253,14 +253,20 @@ theorem paramName?_eq_some (part name : Str) (h : paramName? part = some name) :
 /-- what `rewrite` says when it succeeds -/
 theorem rewrite_ok (props : List Str) (path p' : Str) (h : rewrite props path = .ok p') :
     (∀ part ∈ splitOnByte 47 path, ∀ name, paramName? part = some name → name ∈ props)
+    ∧ LiteralsClean path
     ∧ p' = joinWith b!"/" ((splitOnByte 47 path).map (fun part => (rewritePart props part).1)) := by
   unfold rewrite at h
   simp only [] at h
   split at h
   · rename_i hall
-    refine ⟨?_, ?_⟩
+    rw [List.all_eq_true] at hall
+    refine ⟨?_, ?_, ?_⟩
     · intro part hp name hn
-      rw [List.all_eq_true] at hall
+      have := hall (rewritePart props part) (List.mem_map.mpr ⟨part, hp, rfl⟩)
+      unfold rewritePart at this
+      simp only [hn] at this
+      simpa using this
+    · intro part hp hn
       have := hall (rewritePart props part) (List.mem_map.mpr ⟨part, hp, rfl⟩)
       unfold rewritePart at this
       simp only [hn] at this
@@ -313,9 +319,9 @@ theorem rewritten_parts_no_slash (props : List Str) (path : Str) :
   exact rewritePart_no_slash props part (splitOnByte_no_sep 47 path part hpart)
 
 theorem path_roundtrip (props : List Str) (path p' : Str)
-    (hlit : LiteralsClean path) (hinj : SnakeInjective props) (h : rewrite props path = .ok p') :
+    (hinj : SnakeInjective props) (h : rewrite props path = .ok p') :
     unrewrite (fieldsOf props) p' = .ok path := by
-  obtain ⟨hparam, hp'⟩ := rewrite_ok props path p' h
+  obtain ⟨hparam, hlit, hp'⟩ := rewrite_ok props path p' h
   subst hp'
   unfold unrewrite
   rw [splitOnByte_joinWith 47 _ (by simpa using splitOnByte_ne_nil 47 path)
@@ -449,7 +455,7 @@ theorem mem_pathParamNames (path name : Str) :
   exact List.mem_filterMap
 
 theorem rewrite_ok_of_params (props : List Str) (path : Str)
-    (h : ∀ n ∈ pathParamNames path, n ∈ props) :
+    (h : ∀ n ∈ pathParamNames path, n ∈ props) (hlit : LiteralsClean path) :
     rewrite props path =
       .ok (joinWith b!"/" ((splitOnByte 47 path).map (fun part => (rewritePart props part).1))) := by
   unfold rewrite
@@ -460,7 +466,7 @@ theorem rewrite_ok_of_params (props : List Str) (path : Str)
     obtain ⟨part, hp, rfl⟩ := List.mem_map.mp hx
     unfold rewritePart
     cases hn : paramName? part with
-    | none => rfl
+    | none => simp only []; simp [hlit part hp hn]
     | some name =>
       simp only []
       exact List.contains_iff_mem.mpr (h name ((mem_pathParamNames path name).mpr ⟨part, hp, hn⟩))
@@ -496,7 +502,7 @@ def compiledMethod (pkg : Str) (base : Option Str) (m : MethodDecl) : DMethod :=
 theorem compileMethod_valid (pkg : Str) (base : Option Str) (m : MethodDecl) (h : ValidMethod base m) :
     compileMethod pkg base m = .ok (compiledMethod pkg base m) := by
   unfold compileMethod
-  rw [rewrite_ok_of_params m.req _ h.2.2]
+  rw [rewrite_ok_of_params m.req _ h.2.2 h.1]
   rfl
 
 def structuredMethod (base : Option Str) (m : MethodDecl) (pkg : Str) : SMethod :=
@@ -511,7 +517,7 @@ theorem structureMethod_valid (pkg : Str) (base : Option Str) (m : MethodDecl) (
   simp only [hacc, Bool.not_true, Bool.false_eq_true, if_false]
   have hrt : unrewrite (compiledMethod pkg base m).fields (compiledMethod pkg base m).pattern =
       .ok (resolvedPath base m.path) :=
-    path_roundtrip m.req _ _ h.1 h.2.1 (rewrite_ok_of_params m.req _ h.2.2)
+    path_roundtrip m.req _ _ h.2.1 (rewrite_ok_of_params m.req _ h.2.2 h.1)
   rw [hrt]
   rfl
 
@@ -535,6 +541,91 @@ theorem mapMOutcome_map_ok {α β γ} (f : β → Outcome γ) (c : α → β) (g
     simp only [List.map_cons]
     unfold mapMOutcome
     rw [h a (by simp), ih (fun x hx => h x (List.mem_cons_of_mem _ hx))]
+
+theorem mapMOutcome_ok_inv {α β} (f : α → Outcome β) (l : List α) (bs : List β)
+    (h : mapMOutcome f l = .ok bs) : ∀ a ∈ l, ∃ b, f a = .ok b := by
+  induction l generalizing bs with
+  | nil => intro a ha; simp at ha
+  | cons x xs ih =>
+    intro a ha
+    unfold mapMOutcome at h
+    cases hx : f x with
+    | ok b =>
+      simp only [hx] at h
+      cases hxs : mapMOutcome f xs with
+      | ok bs' =>
+        rcases List.mem_cons.mp ha with e | e
+        · subst e; exact ⟨b, hx⟩
+        · exact ih bs' hxs a e
+      | err e => simp [hxs] at h
+      | panic w => simp [hxs] at h
+    | err e => simp [hx] at h
+    | panic w => simp [hx] at h
+
+/-- a method the compiler accepts satisfies the two conditions the compiler checks -/
+theorem validMethod_of_compiled (pkg : Str) (base : Option Str) (m : MethodDecl) (d : DMethod)
+    (hinj : SnakeInjective m.req) (h : compileMethod pkg base m = .ok d) : ValidMethod base m := by
+  unfold compileMethod at h
+  cases hr : rewrite m.req (resolvedPath base m.path) with
+  | ok pat =>
+    obtain ⟨hparam, hlit, _⟩ := rewrite_ok _ _ _ hr
+    refine ⟨hlit, hinj, ?_⟩
+    intro n hn
+    obtain ⟨part, hp, hpn⟩ := (mem_pathParamNames _ n).mp hn
+    exact hparam part hp n hpn
+  | err e => simp [hr] at h
+  | panic w => simp [hr] at h
+
+theorem validService_of_compiled (pkg : Str) (s : ServiceDecl) (d : DService)
+    (hinj : ∀ m ∈ s.methods, SnakeInjective m.req) (h : compileService pkg s = .ok d) :
+    ValidService s := by
+  unfold compileService at h
+  cases hm : mapMOutcome (compileMethod pkg s.base) s.methods with
+  | ok ms =>
+    intro m hmem
+    obtain ⟨dm, hdm⟩ := mapMOutcome_ok_inv _ _ _ hm m hmem
+    exact validMethod_of_compiled pkg s.base m dm (hinj m hmem) hdm
+  | err e => simp [hm] at h
+  | panic w => simp [hm] at h
+
+theorem rewrite_no_panic (props : List Str) (path : Str) (w : String) : rewrite props path ≠ .panic w := by
+  unfold rewrite
+  simp only []
+  split <;> simp
+
+theorem mapMOutcome_no_panic {α β} (f : α → Outcome β) (hf : ∀ a w, f a ≠ .panic w) :
+    ∀ (l : List α) w, mapMOutcome f l ≠ .panic w := by
+  intro l
+  induction l with
+  | nil => intro w; simp [mapMOutcome]
+  | cons a as ih =>
+    intro w
+    unfold mapMOutcome
+    cases ha : f a with
+    | ok b =>
+      simp only []
+      cases has : mapMOutcome f as with
+      | ok bs => simp
+      | err e => simp
+      | panic w2 => exact absurd has (ih w2)
+    | err e => simp
+    | panic w2 => exact absurd ha (hf a w2)
+
+theorem compileMethod_no_panic (pkg : Str) (base : Option Str) (m : MethodDecl) (w : String) :
+    compileMethod pkg base m ≠ .panic w := by
+  unfold compileMethod
+  cases hr : rewrite m.req (resolvedPath base m.path) with
+  | ok pat => simp
+  | err e => simp
+  | panic w' => exact absurd hr (rewrite_no_panic _ _ w')
+
+theorem compileService_no_panic (pkg : Str) (s : ServiceDecl) (w : String) :
+    compileService pkg s ≠ .panic w := by
+  unfold compileService
+  cases hm : mapMOutcome (compileMethod pkg s.base) s.methods with
+  | ok ms => simp
+  | err e => simp
+  | panic w' => exact absurd hm (mapMOutcome_no_panic _ (compileMethod_no_panic pkg s.base) _ w')
 
 theorem chainService_valid (pkg : Str) (s : ServiceDecl) (h : ValidService s) :
     chainService pkg s = .ok (declaredService s) := by
